@@ -209,8 +209,11 @@ def run_test_bin(binpath, run, env=None, timeout=900, cwd=None):
 def write_evidence(pid, tier, level, coverage, assumptions, wall, violations=0):
     ev = {"property_id": pid, "tier": tier, "seed": seed(), "level": level, "coverage": coverage,
           "assumptions": assumptions, "wall_s": round(wall, 2), "violations": violations}
-    os.makedirs(os.path.join(VERIF, "evidence"), exist_ok=True)
-    p = os.path.join(VERIF, "evidence", pid + ".json")
+    # evidence describes runs against /repo itself; a run against another tree (seeded changes applied to a
+    # scratch worktree, VERIF_REPO) must not overwrite it
+    evdir = os.path.join(VERIF, "evidence") if REPO == "/repo" else os.path.join(VERIF, "work", "evidence_other_tree")
+    os.makedirs(evdir, exist_ok=True)
+    p = os.path.join(evdir, pid + ".json")
     tmp = p + ".tmp%d" % os.getpid()
     with open(tmp, "w") as fh:
         json.dump(ev, fh, indent=1, default=str)
